@@ -68,6 +68,10 @@ func genC16dPlan(r *zsim.Rng) *c16dPlan {
 		for k := r.Range(1, 4); k > 0; k-- {
 			parts = append(parts, c16dVocabulary[r.Intn(len(c16dVocabulary))])
 		}
+		if r.Chance(1, 6) {
+			// the open form `name:argument` takes the rest of the list as it stands, blanks at the end included
+			parts = append(parts, pick(r, "change-prompt:q>  ", "change-query:ab ", "change-query:c\t", "change-prompt: "))
+		}
 		p.Steps = append(p.Steps, strings.Join(parts, "+"))
 	}
 	if r.Chance(1, 4) {
